@@ -221,6 +221,23 @@ Proof.
   destruct (starts (kw_str k) (v ++ rest)); [rewrite H|]; exact IH.
 Qed.
 
+Lemma one_kw_miss_rp k v r' :
+  v <> [] -> forallb (fun c => negb (reserved c)) v = true ->
+  match starts (kw_str k) (v ++ RP :: r') with Some r => boundary_after r = false | None => True end.
+Proof.
+  intros Hne Hnr. destruct (list_eq_dec N.eq_dec v (kw_str k)) as [->|Hd].
+  - now rewrite starts_app.
+  - apply one_kw_miss; auto. reflexivity.
+Qed.
+
+Lemma find_kw_before_rp ks v r' :
+  v <> [] -> forallb (fun c => negb (reserved c)) v = true -> find_kw ks (v ++ RP :: r') = None.
+Proof.
+  intros Hne Hnr. induction ks as [|k ks IH]; cbn [find_kw]; [reflexivity|].
+  pose proof (one_kw_miss_rp k v r' Hne Hnr) as H.
+  destruct (starts (kw_str k) (v ++ RP :: r')); [rewrite H|]; exact IH.
+Qed.
+
 Definition kw_initial (c : N) : bool := ((c =? 97) || (c =? 110) || (c =? 111))%N.
 Lemma find_kw_other_head ks c t : kw_initial c = false -> find_kw ks (c :: t) = None.
 Proof.
@@ -247,7 +264,7 @@ Section Simple.
   Variable V : variants.
   Variable compile : atom -> cres.
 
-  Lemma print_atom_head a st : atom_ok a st ->
+  Lemma print_atom_head al a st : atom_okx al a st ->
     (exists c t, print_atom a st = c :: t /\ is_space c = false /\ (c =? LP)%N = false /\ kw_initial c = false) \/
     (st_short st = true /\ st_pat st = Unq).
   Proof.
@@ -260,12 +277,13 @@ Section Simple.
       + eexists AT, _. split; [reflexivity|repeat split; reflexivity].
   Qed.
 
-  Lemma simple_print a st rest :
-    atom_ok a st -> compile a = COk -> (st_pat st = Unq -> stop_res rest) ->
+  Lemma simple_print al a st rest :
+    atom_okx al a st -> (al = true -> bare_keyword_atom V = true) ->
+    compile a = COk -> (st_pat st = Unq -> stop_res rest) ->
     exists l, simple V compile (print_atom a st ++ rest) = Ok (a, l, rest) /\
               forall d, last_of d (print_atom a st) = Some l.
   Proof.
-    intros [Hv Hk] Hc Hs.
+    intros [Hv Hk] Hal Hc Hs.
     destruct (lex_pattern_print (st_pat st) (a_pat a) rest Hv Hs) as (l & Hl & Hlast).
     exists l. unfold print_atom. destruct (st_short st) eqn:Es.
     - (* shorthand *)
@@ -282,7 +300,8 @@ Section Simple.
       destruct Hhead as (c & t & Eh & Hat & Hq). unfold simple. rewrite Eh, (first_prefix_no_at c t Hat), Hat, <- Eh, Hl.
       cbn [bind].
       assert (negb (bare_keyword_atom V) && negb (is_quote c) && is_kw_text (a_pat a) = false) as ->.
-      { destruct Hq as [Hq|Hq]; [rewrite Hq; now rewrite andb_false_r|]. rewrite (Hkw Hq). now rewrite andb_false_r. }
+      { destruct Hq as [Hq|Hq]; [rewrite Hq; now rewrite andb_false_r|].
+        destruct al; [now rewrite Hal|]. rewrite (Hkw Hq eq_refl). now rewrite andb_false_r. }
       unfold compile_unqualified.
       assert (Ea : {| a_key := None; a_type := TGlob; a_cs := false; a_pat := a_pat a |} = a).
       { destruct a as [k ty cs p]; cbn in *. now subst. }
@@ -309,12 +328,16 @@ Section Simple.
   Qed.
 
   (* a printed atom is not mistaken for a keyword *)
-  Lemma find_kw_print_atom ks a st rest : atom_ok a st -> (st_pat st = Unq -> stop_res rest) ->
+  Lemma find_kw_print_atom ks al a st rest : atom_okx al a st -> (st_pat st = Unq -> stop_res rest) ->
+    (al = true -> exists r', rest = RP :: r') ->
     find_kw ks (print_atom a st ++ rest) = None.
   Proof.
-    intros Hok Hs. destruct (print_atom_head a st Hok) as [(c & t & E & _ & _ & Hk)|[Hsh Hp]].
+    intros Hok Hs Hrp. destruct (print_atom_head al a st Hok) as [(c & t & E & _ & _ & Hk)|[Hsh Hp]].
     - rewrite E. cbn [app]. now apply find_kw_other_head.
     - destruct Hok as [Hv Hk]. unfold print_atom. rewrite Hsh in *. rewrite Hp in *. cbn [print_value value_ok] in *.
-      destruct Hk as (_ & _ & _ & Hkw). apply find_kw_unquoted; auto.
+      destruct Hk as (_ & _ & _ & Hkw).
+      destruct al.
+      + destruct (Hrp eq_refl) as (r' & ->). destruct Hv as (Hne & Hnr & _). now apply find_kw_before_rp.
+      + apply find_kw_unquoted; auto.
   Qed.
 End Simple.
